@@ -233,3 +233,87 @@ def activate(role=None, extra=None):
     if extra:
         hello.update(extra)
     _sched("hello", **hello)
+
+
+# ------------------------------------------------------------------------------------------------------------------
+# Inner monitors (advisory): icontract post-conditions / invariants on a few internal commit points of JADE, attached
+# from outside after jade is imported (fork server).  They record and return True - they never raise into JADE - and report
+# to the driver, which counts evaluations and failures.  The deciding oracles are all at process boundaries; these add
+# observability at the exact point of mutation (under the lock the code itself holds).
+_inner = {"attached": []}
+
+
+def _report(name, ok, detail=""):
+    if _state["active"]:
+        _notify("contract", name=name, ok=bool(ok), detail=str(detail)[:300])
+
+
+def attach_inner_monitors():
+    try:
+        import icontract
+    except ImportError:
+        return []
+
+    class Advisory(Exception):
+        pass
+
+    attached = []
+    try:
+        from jade.jobs.cluster import Cluster
+        from jade.models import JobState
+
+        def counters_agree(self):
+            try:
+                st = [j.state for j in self._job_status.jobs]
+                nd = sum(1 for x in st if x == JobState.DONE)
+                ns = sum(1 for x in st if x == JobState.SUBMITTED)
+                c = self._config
+                ok = c.completed_jobs <= c.submitted_jobs <= c.num_jobs and c.completed_jobs == nd
+                _report("cluster.update_job_status: completed==#done, completed<=submitted<=total", ok, f"completed={c.completed_jobs} submitted={c.submitted_jobs} total={c.num_jobs} done={nd} submitted_state={ns}")
+            except Exception as e:  # the monitor must never disturb JADE
+                _report("cluster.update_job_status: monitor error", True, repr(e))
+            return True
+
+        Cluster._update_job_status = icontract.ensure(counters_agree, error=Advisory)(Cluster._update_job_status)
+        attached.append("Cluster._update_job_status")
+    except Exception as e:  # internal name moved: not attached, never a violation
+        attached.append(f"(not attached: Cluster._update_job_status: {e!r})")
+    try:
+        from jade.hpc.hpc_submitter import _BatchJobs
+
+        def admission_within_limit(self, result):
+            try:
+                if result:
+                    if self._time_based_batching:
+                        ok = self._estimated_batch_time <= self._max_batch_time
+                        d = f"estimated {self._estimated_batch_time} limit {self._max_batch_time}"
+                    else:
+                        ok = len(self._jobs) <= self._per_node_batch_size
+                        d = f"jobs {len(self._jobs)} batch size {self._per_node_batch_size}"
+                    _report("_BatchJobs.try_append: admitted batch within its limit", ok, d)
+            except Exception as e:
+                _report("_BatchJobs.try_append: monitor error", True, repr(e))
+            return True
+
+        _BatchJobs.try_append = icontract.ensure(admission_within_limit, error=Advisory)(_BatchJobs.try_append)
+        attached.append("_BatchJobs.try_append")
+    except Exception as e:
+        attached.append(f"(not attached: _BatchJobs.try_append: {e!r})")
+    try:
+        from jade.jobs import job_queue
+
+        def outstanding_within_depth(self):
+            try:
+                ok = len(self._outstanding_jobs) <= self._queue_depth
+                _report("JobQueue: outstanding <= depth", ok, f"outstanding {len(self._outstanding_jobs)} depth {self._queue_depth}")
+            except Exception as e:
+                _report("JobQueue: monitor error", True, repr(e))
+            return True
+
+        for meth in ("submit", "process_queue"):
+            setattr(job_queue.JobQueue, meth, icontract.ensure(outstanding_within_depth, error=Advisory)(getattr(job_queue.JobQueue, meth)))
+        attached.append("JobQueue.submit/process_queue")
+    except Exception as e:
+        attached.append(f"(not attached: JobQueue: {e!r})")
+    _inner["attached"] = attached
+    return attached
